@@ -344,13 +344,16 @@ pub fn check(prop: &str, tier: &str) -> i32 {
             m.machinery_errors.push(format!("the fine-grained E3 harness did not build ({})", dir));
         } else {
             let (mut scheds, mut points, mut maxp, mut cfgs, mut divs, mut files) = (0u64, 0u64, 0u64, 0u64, 0u64, 0u64);
+            let mut fine_names: std::collections::BTreeSet<String> = std::collections::BTreeSet::new();
             if let Ok(rd) = fs::read_dir(&dir) {
                 for e in rd.flatten() {
                     if e.path().extension().map(|x| x == "json").unwrap_or(false) {
                         files += 1;
                         let v: Value = fs::read_to_string(e.path()).ok().and_then(|t| serde_json::from_str(&t).ok()).unwrap_or(Value::Null);
                         for r in v["results"].as_array().cloned().unwrap_or_default() {
-                            cfgs += 1;
+                            if fine_names.insert(r["config"].as_str().unwrap_or("").to_string()) {
+                                cfgs += 1;
+                            }
                             scheds += r["schedules"].as_u64().unwrap_or(0);
                             points += r["points_total"].as_u64().unwrap_or(0);
                             maxp = maxp.max(r["max_points"].as_u64().unwrap_or(0));
@@ -362,7 +365,7 @@ pub fn check(prop: &str, tier: &str) -> i32 {
                                 m.violation_count += 1;
                                 m.violations.push(json!({
                                     "sub": "schedule:function-entry-granularity", "profile": "fine",
-                                    "case": {"config": r["config"], "threads": r["threads"], "schedule": viol["schedule"], "fine": true},
+                                    "case": {"config": r["config"], "threads": r["threads"], "schedule": viol["schedule"], "fine": true, "cold": viol["cold"]},
                                     "expected": viol["expected"], "actual": viol["actual"], "site": Value::Null
                                 }));
                             }
@@ -379,7 +382,7 @@ pub fn check(prop: &str, tier: &str) -> i32 {
             m.evaluations += scheds;
             *m.subspaces.entry("schedule:function-entry-granularity".into()).or_insert(0) += scheds;
             m.extra.insert("fine_grained_E3".into(), json!({
-                "what": "tree under test compiled with -Z instrument-mcount at opt-level 0: every function entry (incl. monomorphised std generics such as Mutex::lock / RwLock::read) is a scheduling point; all schedules with at most one preemption",
+                "what": "tree under test compiled with -Z instrument-mcount at opt-level 0: every function entry (incl. monomorphised std generics such as Mutex::lock / RwLock::read) is a scheduling point; all schedules with at most one preemption, each configuration warm (in one process) and cold (every schedule in a forked child of a process that never evaluated anything), each execution followed by a sequential repetition of its calls",
                 "configs": cfgs, "schedules": scheds, "scheduling_points_total": points, "max_points_per_execution": maxp, "replays_that_did_not_reproduce": divs
             }));
         }
